@@ -163,6 +163,19 @@ def cases(rng, tier, feats, drv_ok):
                 out.append({'line': f'verify dynamic 14 {o[3:]}', 'kind': 'forged-dynamic', 'name': b.name, 'pos': nm, 'hxonly': nm != 'unedited' and k % 25 != 0})
             elif o.startswith('panic'):
                 out.append({'line': 'forge_zero_from dynamic ' + ' '.join(b.line(v).split(' ')[3:]), 'kind': 'forged-dynamic', 'name': b.name, 'pos': nm + ' (panic while forging, inside stark_commit)', 'hxonly': True})
+    # SHAPES carried deep by a forger (harness forge_zero_knobs): a zero-trace forgery whose transcript, proof of work and decommitments are
+    # consistent with the shape it SENDS — fewer / no FRI inner-layer commitments, a short / long / empty last layer, fewer / no layer
+    # witnesses.  A mutated honest proof with such a shape dies at the proof of work; this one goes as far as the verifier lets it.
+    if HX and 'full' in feats:
+        shapes = [(i, l, w) for i in ('0', '1', '3', '-') for l in ('-', '0', '1', '100') for w in ('-', '0', '1', '9')]
+        if tier == 'quick': shapes = [sh for sh in shapes if sh.count('-') >= 1]
+        fo, _ = fw.run_split(lambda ls, **kw: fw.run_hx(HX, ls), [f'forge_zero_knobs 0 10 14 {i} {l} {w}' for i, l, w in shapes])
+        for sh, o in zip(shapes, fo):
+            nm = 'inner_sent=%s last_len=%s layers_sent=%s' % sh
+            if o.startswith('ok '):
+                out.append({'line': f'verify recursive 32 {o[3:]}', 'kind': 'forged-shape', 'name': 'fixture', 'pos': nm})
+            elif o.startswith('panic'):
+                out.append({'line': 'forge_zero_knobs 0 10 14 %s %s %s' % sh, 'kind': 'forged-shape', 'name': 'fixture', 'pos': nm + ' (panic while forging, inside stark_commit)', 'hxonly': True})
     # the dynamic layout's autogenerated assertion list alone, on adversarial parameter vectors (no panic: Props/C18dyn; model agreement)
     if 'all_layouts' in feats:
         vals = [0, 1, 2, 3, 4, 8, 16, 64, 256, 1 << 12, 1 << 16, 1 << 20, 1 << 31, 1 << 32, 1 << 63, (1 << 64) - 1]
